@@ -5,6 +5,7 @@ stream items or suspended calls are pending on other keys.
 -/
 import Lockable.Proofs.LinearOut
 import Lockable.Proofs.Holds
+import Lockable.Proofs.Erasure
 set_option linter.unusedSimpArgs false
 namespace Lockable
 
@@ -84,5 +85,35 @@ theorem lock_wait_plain (a : Api) (hi : Inv a.s) (h k h0 : Nat) (hf : a.s.hs h =
     cases hto : (enqueue (lookup a.s h k).1 h).2 <;> simp [Res.isGuard]
     rename_i b
     cases b <;> simp
+
+/-- a plain `try_lock` call that returns no guard is the identity on the whole API state, up to the recency refresh of its lookup -/
+theorem lock_try_failed_erased (a : Api) (hi : Inv a.s) (h k h0 : Nat) (hf : a.s.hs h = none)
+    (hfail : (a.exec (.lock .try h k .none h0)).2.res.isGuard = false) :
+    (a.exec (.lock .try h k .none h0)).1 = { a with s := a.s.touch k } ∧
+    (match (a.exec (.lock .try h k .none h0)).2.res with | .none => True | _ => False) := by
+  have hfree : (absSpec a.s).free k = false := by
+    have := lock_try_plain a hi h k h0 hf
+    cases hx : (absSpec a.s).free k
+    · rfl
+    · rw [this.2 hx] at hfail; cases hfail
+  cases hm : a.s.ent k with
+  | none => simp [Spec.free, absSpec, heldOf, waitingOf, hm] at hfree
+  | some m =>
+    cases hho : m.holder with
+    | none =>
+      have hq := hi.freeNoQueue _ m hm hho
+      simp [Spec.free, absSpec, heldOf, waitingOf, waitersOf, hm, hho, hq] at hfree
+    | some w =>
+      obtain ⟨e1, e2, e3⟩ := failed_try_erased a.s hi h k m w hf hm hho
+      have hu := lookup_unit a.s h k hi hf
+      have hhs : (lookup a.s h k).1.hs h = some ⟨k, m.eid, .replica⟩ := by
+        unfold lookup
+        simp only [hi.notWedged, Bool.false_eq_true, ↓reduceIte, hf, Option.isSome_none, hm]
+        rw [touch_hs]; simp [State.clone, upd]
+      show (a.lock .try h k .none h0).1 = _ ∧ (match (a.lock .try h k .none h0).2.res with | .none => True | _ => False)
+      unfold Api.lock
+      simp only [Nat.zero_add]
+      unfold Api.lockPrelude
+      simp only [hu, hhs, reduceCtorEq, ↓reduceIte, e1, e2, e3, and_self]
 
 end Lockable
